@@ -9,7 +9,8 @@ FOREIGN = ["int", "none", "str", "other_family_file", "list", "elem"]
 
 def build(fam, seq, as_file, noise=0):
     F = families.get(fam)
-    T = families.elem_classes(fam)
+    # type 4 is the framework's own default component (DefaultRegister / DefaultBlock / DefaultSection, with their own __eq__)
+    T = families.elem_classes(fam) + [F["Default"]]
     # the abstract data values 1, 2, 3 are carried by 1, 0.3 and 0.1 + 0.2 (= 0.30000000000000004): equality is exact
     carrier = {1: 1, 2: 0.3, 3: 0.1 + 0.2}
     elems = [T[c](data=[carrier.get(d, d)]) for c, d in seq]
@@ -62,7 +63,7 @@ class CHECK(Check):
         n = 3000 if tier == "quick" else 60000
         for _ in range(n):
             ln = rng.randint(1, 8)
-            xs = [[rng.choice([0, 1, 2, 3]), rng.choice([1, 2, 3])] for _ in range(ln)]
+            xs = [[rng.choice([0, 1, 2, 3, 4]), rng.choice([1, 2, 3])] for _ in range(ln)]
             ys = [list(x) for x in xs]
             k = rng.choice(["equal", "one", "type", "subtype", "prefix", "random"])
             if k == "one":
@@ -70,7 +71,7 @@ class CHECK(Check):
                 ys[j][1] = ys[j][1] % 3 + 1
             elif k == "type":
                 j = rng.randrange(ln)
-                ys[j][0] = (ys[j][0] + 2) % 4
+                ys[j][0] = (ys[j][0] + rng.choice([2, 3, 4])) % 5
             elif k == "subtype":
                 j = rng.randrange(ln)
                 xs[j][0] = 0
@@ -82,7 +83,7 @@ class CHECK(Check):
                 if rng.random() < 0.5:
                     xs, ys = ys, xs
             elif k == "random":
-                ys = [[rng.choice([0, 1, 2, 3]), rng.choice([1, 2, 3])] for _ in range(rng.randint(1, 8))]
+                ys = [[rng.choice([0, 1, 2, 3, 4]), rng.choice([1, 2, 3])] for _ in range(rng.randint(1, 8))]
             yield {"fam": rng.choice(families.FAMILIES), "xs": xs, "ys": ys, "file": rng.random() < 0.5, "kind": k}
         # the same content read twice gives equal files, and equal files write identical output
         from .. import reglib
@@ -137,7 +138,8 @@ class CHECK(Check):
 
     def model_arg(self, case):
         ys = case["ys"] if case["ys"] is not None else []
-        return [families.SUB, case["xs"], ys]
+        sub5 = [row + [0] for row in families.SUB] + [[0, 0, 0, 0, 1]]      # the default type is related to none of the others
+        return [sub5, case["xs"], ys]
 
     def model_obs(self, case, res):
         return {"ab": bool(res[0]), "ba": bool(res[1])}
